@@ -14,8 +14,8 @@ def gen(w, rng, tier):
     per = 6 if tier == "quick" else 40
     for t in w.noref():
         n = t["n"]
-        for i in range(n):
-            for j in range(n):
+        for (i, j) in w.pairs(t, rng):
+            if True:
                 ams = amounts(w.be, rng, 3) + specials(w.be)
                 for _ in range(per):
                     la, a = rng.choice(ams)
